@@ -401,7 +401,8 @@ def r02_contains(run):
     methods = {m.name: m.node for m in R.methods.values()} if R else {}
     wrong = {}
     total = 0
-    inputs = [tuple(c) for n_ in range(0, 5) for c in itertools.product((True, False), repeat=n_)] + ["not-iterable"]
+    inputs = [tuple(c) for n_ in range(0, 7 if run.thorough else 5) for c in itertools.product((True, False), repeat=n_)] \
+        + ["not-iterable"]          # thorough: item lists of up to six
     for items in inputs:
         for mn in (None, 2):
             for mx in (None, 2):
